@@ -76,6 +76,9 @@ def parseFlag (s : String) : OFlag :=
   | "w" => .w | "rw" => .rw | "wt" => .wt | "wa" => .wa | "rt" => .rt | "ra" => .ra | _ => .r
 
 def parseOp (s : String) : Option Op :=
+  -- `cup,<request>`: the same request, with a second client reading the target while the
+  -- request's copy-up is in flight (sequentially equivalent to the request alone)
+  let s := if s.startsWith "cup," then String.ofList (s.toList.drop 4) else s
   match s.splitOn "," with
   | ["lookup", p] => some (.lookup (parsePath p))
   | ["readdir", p] => some (.readdir (parsePath p))
